@@ -317,6 +317,8 @@ var Special = []string{
 	"7k/5Q2/6K1/8/8/8/8/8 b - - 0 1",
 	"7k/5K2/6Q1/8/8/8/8/8 b - - 0 1",
 	"6k1/8/8/1b6/3PP3/r1PKP3/2PRB3/8 w - - 0 1",
+	"8/8/5N1k/8/3pP3/8/8/2B1K1R1 b - e3 0 1", // domain boundary: target geometrically fine but the push was impossible (epSound false)
+	"8/8/5N1k/8/3pP3/8/4B3/4K1R1 b - e3 0 1",
 }
 
 // Parse reads the six FEN fields into a mailbox (no validation beyond shape; ok=false on junk).
@@ -765,4 +767,27 @@ func KingNet(rng *rand.Rand) (Pos, bool) {
 		return p, false
 	}
 	return p, true
+}
+
+// EPSound reports whether the recorded en-passant target belongs to a pawn that could really just
+// have double-pushed: with the pawn back on its origin square the side to move now must not be in
+// check (mailbox version of the Lean predicate Rules.epSound).
+func (p *Pos) EPSound() bool {
+	if p.EP == 0 {
+		return true
+	}
+	mover := !p.Black
+	up := 8
+	if mover { // black pushed downwards
+		up = -8
+	}
+	front, back := p.EP+up, p.EP-up
+	if front < 0 || front > 63 || back < 0 || back > 63 || p.Men[front] != man(mover, P) || p.Men[back] != 0 {
+		return false
+	}
+	q := *p
+	q.Men[front] = 0
+	q.Men[back] = man(mover, P)
+	q.EP = 0
+	return !q.InCheck(p.Black)
 }
